@@ -5,12 +5,10 @@ PATCH="$1"; PROP="$2"; TIER="${3:-quick}"
 cd /repo || exit 2
 if [ -n "$(git status --porcelain --untracked-files=no)" ]; then echo "repo not clean"; exit 2; fi
 git apply "$PATCH" || { echo "patch does not apply"; exit 2; }
-# the evidence file describes the unchanged tree: keep it across the mutated run
-cp "/verif/evidence/$PROP.json" "/tmp/try_seed.evidence.$PROP.json" 2>/dev/null
-/verif/check "$PROP" --tier "$TIER" > /tmp/try_seed.out 2>&1
+# the evidence file describes the unchanged tree: the mutated run writes elsewhere
+VERIF_EVIDENCE_DIR=/verif/out/seed-evidence /verif/check "$PROP" --tier "$TIER" > /tmp/try_seed.out 2>&1
 RC=$?
 git checkout -- .
-[ -f "/tmp/try_seed.evidence.$PROP.json" ] && mv "/tmp/try_seed.evidence.$PROP.json" "/verif/evidence/$PROP.json"
 echo "exit=$RC"
 grep -c "^VIOLATION" /tmp/try_seed.out
 grep "^VIOLATION\|kind=" /tmp/try_seed.out | head -6 | cut -c1-400
